@@ -319,7 +319,9 @@ def run(ctx):
                     name="grammar-" + name, timeout=3000, coverage=(name == "lists"))
         out = os.path.join(ctx.work, "replay-%s.json" % name)
         tr = os.path.join(ctx.work, "replay-%s.ndjson" % name)
-        every = 1 if (thorough or r["edges"] < 1500) else 5
+        # every executed case is compared with TLC's outcome set by the harness; a sample of the executed cases is
+        # additionally recorded and validated by the trace spec (conformance of the re-injected headers)
+        every = (1 if r["edges"] < 30000 else 8) if thorough else (1 if r["edges"] < 1500 else 5)
         ctx.run([binp, "grammar", "-edges", r["edges_file"], "-out", out, "-trace", tr, "-every", str(every)], timeout=3000)
         trace_parts.append(tr)
         res = json.load(open(out))
@@ -358,7 +360,7 @@ def run(ctx):
     lines = open(rtrace).read().splitlines()
     for p in trace_parts:
         lines += open(p).read().splitlines()
-    size = 4000
+    size = 12000 if thorough else 4000
     cur = []
     for ln in lines:
         if len(cur) >= size and '"ev":"Edit"' not in ln:
